@@ -26,6 +26,14 @@ CHECKS = {
          "seeded exploration of operation histories and capacities in lockstep with a slice-based model; thin simulator dimension (a failing subscriber inside Replay), stated as such in DESIGN.md."),
  "C09": ("exploration", "4 C09", "simulated clock behind ValidReplayer.Now + histories of Put/Replay/GC/advance against an expiring-FIFO reference model",
          "seeded exploration of histories, TTL/GCInterval settings and clock advances (0, <TTL, =TTL, >TTL) in lockstep with a model on the world's clock."),
+ "C10": ("exploration", "4 C10", "deterministic simulation with fault injection: scripted transport (dial failure / rejected response / stream cut cleanly, with an error or mid-event) under the seeded scheduler; headers and body of every attempt vs. the attempt history",
+         "seeded search over attempt histories and request body kinds; every attempt's Last-Event-ID must equal the ID of the last event the reference interpreter says was dispatched, bodies must be re-obtained or Connect must end with ErrNoGetBody/GetBody's error."),
+ "C11": ("exploration", "4 C11", "deterministic simulation with fault injection: stream endings of every class, read errors (injected, io.ErrUnexpectedEOF, net.OpError), cancellation at a chosen attempt / byte offset / simulated instant, validator verdicts, retry limits",
+         "seeded search; Connect's result is classified against the run's history: never nil, the context's error iff cancelled, permanent failures at once, otherwise only when the budget is exhausted and with the last attempt's own error."),
+ "C12": ("exploration", "4 C12", "deterministic simulation on the fake clock (testing/synctest): real back-off timers and jitter PRNG, OnRetry values and attempt instants vs. a reference recurrence",
+         "seeded search over Backoff settings and attempt histories on simulated time (minute-long waits cost microseconds); waits, counts, resets, server retry overrides and MaxElapsedTime are compared with a reference recurrence written from the field documentation."),
+ "C13": ("exploration", "4 C13", "deterministic simulation: subscriber tasks add/remove callbacks while the Connection dispatches chunk-by-chunk under the seeded scheduler (lock hooks); must / may / must-not sets per (callback, event)",
+         "seeded search over subscription histories and interleavings with dispatch. The data-race clause of C13 is NOT decided (no -race build of the simulated binary is run; see DESIGN.md): only routing, at-most-once, order and never-after-unsubscribe are."),
  "C17": ("exploration", "4 C17", "deterministic simulation with fault injection: subscriber failures, Put/Replay errors and panics at chosen calls; C03 oracle for the healthy subscribers",
          "seeded search over schedules and fault plans with at least one healthy subscriber; healthy subscribers must still get their exact window, Put errors must be what Publish returns, nothing may reach the replayer after it panicked."),
  "C18": ("exploration", "4 C18", "simulated histories + reflective reachability walk from the replayer value compared with the model's live set",
